@@ -30,7 +30,10 @@
 //!           | 2 the origin sends only the number of a port it never requested (lost request)
 //!           (modes 1, 2 only with which < 2)
 //!     v1 v2 index of the value (0 or 1 < nvals) carrying the first / the second half
-//!     pre   1 = (mpsc) one item (label 100+c) is queued in the channel before any half is handed over
+//!     pre   (mpsc) number of items (0..8; item j has label 100+c+10j) queued in the channel before any
+//!           half is handed over; the channels have a local queue of 8 items, so 8 = the queue is
+//!           completely full when the half travels (whatever the wiring wants to tell the receiver end --
+//!           a failed connect -- has to wait for queue space and must not get lost)
 //! Output: per value: send result, receive result; per channel: sender-end location + status,
 //!   receiver-end location, items received, terminal status (see `emit_*`).
 use crate::{
@@ -51,6 +54,12 @@ use std::{collections::HashMap, fmt, future::Future, marker::PhantomData, sync::
 
 pub const COMP: u128 = 5;
 const MAXP: u32 = 48;
+/// local queue of the mpsc channels
+const QCAP: u64 = 8;
+/// label of the j-th item queued in channel i before the hand-over
+fn pre_label(i: usize, j: u64) -> u64 {
+    100 + i as u64 + 10 * j
+}
 
 // ---------------------------------------------------------------------------------------------
 // value language
@@ -284,7 +293,7 @@ enum RxEnd {
 fn make(ck: u128) -> (TxEnd, RxEnd) {
     match ck {
         0 => {
-            let (t, r) = mpsc::channel(8);
+            let (t, r) = mpsc::channel(QCAP as usize);
             (TxEnd::Mpsc(t), RxEnd::Mpsc(r))
         }
         1 => {
@@ -591,7 +600,7 @@ struct Chan {
     mode: u128,
     v1: usize,
     v2: usize,
-    pre: bool,
+    pre: u64,
 }
 
 #[derive(Clone, Debug)]
@@ -630,7 +639,7 @@ fn parse(inp: &[u128]) -> Option<Case> {
         nvals: inp[9] as usize,
         chans: inp[11..]
             .chunks(6)
-            .map(|c| Chan { ck: c[0], which: c[1], mode: c[2], v1: c[3] as usize, v2: c[4] as usize, pre: c[5] != 0 })
+            .map(|c| Chan { ck: c[0], which: c[1], mode: c[2], v1: c[3] as usize, v2: c[4] as usize, pre: c[5] as u64 })
             .collect(),
     };
     if c.kind > 1 || c.hops < 1 || c.hops > 3 || c.nvals < 1 || c.nvals > 2 || c.fault > 4 {
@@ -649,7 +658,7 @@ fn parse(inp: &[u128]) -> Option<Case> {
         if ch.ck == 3 && ch.which != 1 {
             return None; // only broadcast receivers travel
         }
-        if ch.pre && ch.ck != 0 {
+        if ch.pre > QCAP || (ch.pre != 0 && ch.ck != 0) {
             return None;
         }
         if ch.which < 2 && ch.v1 != ch.v2 {
@@ -784,8 +793,8 @@ async fn run_case(c: &Case) -> Option<Trace> {
     let far: Vec<Ends> = c.chans.iter().map(|_| Ends { tx: Arc::new(Default::default()), rx: Arc::new(Default::default()) }).collect();
     // queue an item before anything travels
     for (i, ch) in c.chans.iter().enumerate() {
-        if ch.pre {
-            let _ = tx_send(&origin[i].tx, 100 + i as u64).await;
+        for j in 0..ch.pre {
+            let _ = tx_send(&origin[i].tx, pre_label(i, j)).await;
         }
     }
 
@@ -1017,6 +1026,24 @@ async fn run_case(c: &Case) -> Option<Trace> {
     }
     // a bin / lr channel whose two ends are both local never connects (by design): not probed
     let unprobed: Vec<bool> = (0..n).map(|i| c.chans[i].ck >= 4 && obs[i].tx_loc == 0 && obs[i].rx_loc == 0).collect();
+    // a channel whose two ends are both (still) at the origin is an ordinary local channel: a further
+    // item waits for space in its queue (back-pressure, by design), so its receiver end takes the items
+    // queued before the hand-over first
+    let mut early: Vec<Option<St>> = vec![None; n];
+    for i in 0..n {
+        if unprobed[i] || obs[i].tx_loc != 0 || obs[i].rx_loc != 0 {
+            continue;
+        }
+        for _ in 0..c.chans[i].pre {
+            match rx_recv(&origin[i].rx).await {
+                Ok(v) => obs[i].items.push(v),
+                Err(s) => {
+                    early[i] = Some(s);
+                    break;
+                }
+            }
+        }
+    }
     for i in 0..n {
         if unprobed[i] {
             continue;
@@ -1039,8 +1066,12 @@ async fn run_case(c: &Case) -> Option<Trace> {
             1 => &far[i].rx,
             _ => continue,
         };
+        if let Some(s) = early[i] {
+            obs[i].rx_term = s;
+            continue;
+        }
         let mut term = St::Ok;
-        for _ in 0..want {
+        for _ in obs[i].items.len()..want {
             match rx_recv(end).await {
                 Ok(v) => obs[i].items.push(v),
                 Err(s) => {
@@ -1146,8 +1177,11 @@ fn signature(c: &Case, t: &Trace) -> String {
     if c.chans.iter().any(|ch| ch.mode == 2) {
         s.push_str(":lost");
     }
-    if c.chans.iter().any(|ch| ch.pre) {
+    if c.chans.iter().any(|ch| ch.pre != 0) {
         s.push_str(":queued");
+    }
+    if c.chans.iter().any(|ch| ch.pre == QCAP) {
+        s.push_str(":qfull");
     }
     if c.nvals > 1 {
         s.push_str(":2vals");
@@ -1187,12 +1221,9 @@ fn oracle(c: &Case, t: &Trace) -> String {
     }
     for (i, o) in t.chans.iter().enumerate() {
         let label = i as u64 + 1;
-        let pre = 100 + i as u64;
         // one-to-one: a receiver end only ever sees items of its own channel, in order, each once
         let mut allowed: Vec<u64> = Vec::new();
-        if c.chans[i].pre {
-            allowed.push(pre);
-        }
+        allowed.extend((0..c.chans[i].pre).map(|j| pre_label(i, j)));
         allowed.push(label);
         let mut k = 0;
         for it in &o.items {
@@ -1213,9 +1244,7 @@ fn oracle(c: &Case, t: &Trace) -> String {
             let clean = c.fault == 0 && ch.mode == 0 && val_ok(ch.v1) && (ch.which < 2 || val_ok(ch.v2));
             if clean {
                 let mut want = Vec::new();
-                if ch.pre {
-                    want.push(pre);
-                }
+                want.extend((0..ch.pre).map(|j| pre_label(i, j)));
                 want.push(label);
                 if o.items != want {
                     return format!("FAIL: channel {}: all its halves were delivered but the receiver end got {:?} ({:?}) instead of {:?}", i, o.items, o.rx_term, want);
@@ -1233,6 +1262,28 @@ fn oracle(c: &Case, t: &Trace) -> String {
                 }
                 if ch.which == 0 && o.tx_loc == 2 && o.rx_loc == 0 && o.rx_term == St::Ok {
                     return format!("FAIL: channel {}: the sender half was sent and got lost, but the receiver end reports no error", i);
+                }
+                // ... and when the trace itself shows that the far end never built the sender half (its
+                // receive of the value failed in deserialization: no port left there; its type ignores
+                // the half; the connection was lost while the value was in flight), the port request was
+                // rejected / failed: the receiver end that stayed behind gets exactly the items queued
+                // before the hand-over, however many (the notification has to wait for queue space), and
+                // then an ERROR -- a clean end would tell it that every sender finished regularly
+                let rr = t.sends.get(ch.v1).map(|s| s.2).unwrap_or(VRes::NotTried);
+                let never_built = match rr {
+                    VRes::SerErr => true,
+                    VRes::Ok => ch.mode == 1,
+                    VRes::Missing | VRes::NotTried => false,
+                    _ => (c.fault == 1 || c.fault == 2) && ch.v1 == 0,
+                };
+                if ch.which == 0 && o.tx_loc == 2 && o.rx_loc == 0 && never_built && c.fault < 3 {
+                    let queued: Vec<u64> = (0..ch.pre).map(|j| pre_label(i, j)).collect();
+                    if o.items != queued {
+                        return format!("FAIL: channel {}: the sender half could not be connected; the receiver end got {:?} instead of the {} queued item(s) {:?}", i, o.items, ch.pre, queued);
+                    }
+                    if o.rx_term != St::Err {
+                        return format!("FAIL: channel {}: the sender half was sent with {} item(s) queued and could not be connected, but after them the receiver end reports {:?} instead of an error", i, ch.pre, o.rx_term);
+                    }
                 }
             }
         }
@@ -1331,7 +1382,16 @@ pub fn gen(r: &mut Rng, i: usize) -> Vec<Vec<u128>> {
         let a = r.below(nvals) as u128;
         let b = r.below(nvals) as u128;
         let (v1, v2) = if which >= 2 { (a.min(b), a.max(b)) } else { (a, a) };
-        let pre = (ck == 0 && r.chance(3, 10)) as u128;
+        // items queued before the hand-over: one, some, or as many as the local queue holds
+        let pre = if ck == 0 && r.chance(3, 10) {
+            match r.below(3) {
+                0 => 1,
+                1 => r.range(2, QCAP - 1),
+                _ => QCAP,
+            }
+        } else {
+            0
+        } as u128;
         chans.push([ck, which, mode, v1, v2, pre]);
     }
     // ports needed by value 0 at the origin (every travelling half that is not a bare number) and at
